@@ -20,7 +20,11 @@ import translate
 import zoo
 import koala.graph_utils as gu
 from koala import example_graphs as eg
-from koala.lattice import Lattice, LatticeException, _find_plaquette, cut_boundaries, permute_vertices
+from koala.lattice import Lattice, LatticeException, cut_boundaries, permute_vertices
+try:                                                     # a private helper: present at the pinned commit, free to change its name or signature
+    from koala.lattice import _find_plaquette
+except ImportError:
+    _find_plaquette = None
 from props.c01 import min_gap, GAP_MIN
 
 K1_SIGNATURE = "new-plaquette-is-input-face-minus-removed-spikes"
@@ -49,6 +53,20 @@ def all_faces(l):
     """every traced walk of the input (valid or not), as cyclic dart tuples"""
     out = []
     seen = set()
+    if _find_plaquette is not None:
+        try:
+            _find_plaquette(0, 1, l)
+        except TypeError:
+            usable = False                               # signature changed: use the harness's own exact face tracer
+        except Exception:
+            usable = True
+        else:
+            usable = True
+    else:
+        usable = False
+    if not usable:
+        import oracle_faces
+        return [[(int(e), int(d)) for e, d in f] for f in oracle_faces.face_structure(l)["faces"]]
     for e in range(l.n_edges):
         for d in (1, -1):
             if (e, d) in seen:
